@@ -757,5 +757,611 @@ theorem setSliceArr_spec (h : Heap) (p : PBA) (lo hi : Option Int) (t : PBA)
       congr 2; simp; omega
 
 
+theorem foldl_min_le (l : List Int) (acc : Int) : l.foldl min acc ≤ acc ∧ ∀ x ∈ l, l.foldl min acc ≤ x := by
+  induction l generalizing acc with
+  | nil => simp
+  | cons y ys ih =>
+    simp only [List.foldl_cons, List.mem_cons]
+    have := ih (min acc y)
+    refine ⟨by omega, fun x hx => ?_⟩
+    rcases hx with rfl | hx
+    · omega
+    · exact this.2 x hx
+
+theorem foldl_min_ge (l : List Int) (acc a : Int) (h1 : a ≤ acc) (h2 : ∀ x ∈ l, a ≤ x) : a ≤ l.foldl min acc := by
+  induction l generalizing acc with
+  | nil => simpa
+  | cons y ys ih =>
+    simp only [List.foldl_cons]
+    exact ih _ (by have := h2 y (by simp); omega) (fun x hx => h2 x (by simp [hx]))
+
+theorem foldl_max_ge (l : List Int) (acc : Int) : acc ≤ l.foldl max acc ∧ ∀ x ∈ l, x ≤ l.foldl max acc := by
+  induction l generalizing acc with
+  | nil => simp
+  | cons y ys ih =>
+    simp only [List.foldl_cons, List.mem_cons]
+    have := ih (max acc y)
+    refine ⟨by omega, fun x hx => ?_⟩
+    rcases hx with rfl | hx
+    · omega
+    · exact this.2 x hx
+
+theorem foldl_max_lt (l : List Int) (acc a : Int) (h1 : acc < a) (h2 : ∀ x ∈ l, x < a) : l.foldl max acc < a := by
+  induction l generalizing acc with
+  | nil => simpa
+  | cons y ys ih =>
+    simp only [List.foldl_cons]
+    exact ih _ (by have := h2 y (by simp); omega) (fun x hx => h2 x (by simp [hx]))
+
+/-- all indices inside `[0, n)` -/
+def InRange (n : Nat) (locs : List Int) : Prop := ∀ l ∈ locs, 0 ≤ l ∧ l < n
+
+theorem checkLocs_ok (h : Heap) (p : PBA) (hwf : WF h p) (locs : List Int) (hne : locs ≠ [])
+    (hr : InRange p.n locs) :
+    checkLocs p locs = .ok (locs.map fun l => (l + (p.start : Int)).toNat) := by
+  obtain ⟨a1, a2, a3, a4, a5⟩ := hwf
+  cases locs with
+  | nil => exact absurd rfl hne
+  | cons x xs =>
+    have hx := hr x (by simp)
+    have h1 : ¬ (minI (x :: xs) < 0) := by
+      have := foldl_min_ge (x :: xs) x 0 hx.1 (fun y hy => (hr y hy).1)
+      simp only [minI, List.headD_cons]; omega
+    have h2 : ¬ (maxI (x :: xs) ≥ p.size) := by
+      have := foldl_max_lt (x :: xs) x p.n hx.2 (fun y hy => (hr y hy).2)
+      simp only [maxI, List.headD_cons, PBA.size]; simp only [PBA.n] at this; omega
+    unfold checkLocs
+    rw [if_neg (by simp only [Bool.or_eq_true, decide_eq_true_eq]; exact fun hh => hh.elim h1 h2)]
+    rw [if_neg]
+    simp only [List.any_eq_true, List.mem_map, decide_eq_true_eq, not_exists, not_and]
+    rintro _ ⟨l, hl, rfl⟩
+    have := hr l hl
+    simp only [PBA.n] at this
+    omega
+
+theorem checkLocs_err (p : PBA) (locs : List Int) (l : Int) (hl : l ∈ locs) (hbad : l < 0 ∨ p.size ≤ l) :
+    checkLocs p locs = .error .index := by
+  unfold checkLocs
+  rw [if_pos]
+  simp only [Bool.or_eq_true, decide_eq_true_eq]
+  cases locs with
+  | nil => simp at hl
+  | cons x xs =>
+    have m1 := (foldl_min_le (x :: xs) x).2 l hl
+    have m2 := (foldl_max_ge (x :: xs) x).2 l hl
+    simp only [minI, maxI, List.headD_cons]
+    omega
+
+theorem or_bit_getLsbD (b : Byte) (t u : Nat) (ht : t < 8) (hu : u < 8) :
+    (b ||| ((1 : Byte) <<< t)).getLsbD u = (b.getLsbD u || decide (u = t)) := by
+  simp only [BitVec.getLsbD_or, BitVec.getLsbD_shiftLeft, BitVec.ofNat_eq_ofNat, BitVec.getLsbD_one]
+  congr 1
+  by_cases c : u = t
+  · subst c; simp [hu]
+  · by_cases c2 : u < t
+    · simp [c, c2]
+    · have : u - t ≠ 0 := by omega
+      simp [c, this]
+
+theorem andnot_bit_getLsbD (b : Byte) (t u : Nat) (ht : t < 8) (hu : u < 8) :
+    (b &&& ~~~((1 : Byte) <<< t)).getLsbD u = (b.getLsbD u && !decide (u = t)) := by
+  simp only [BitVec.getLsbD_and, BitVec.getLsbD_not, BitVec.getLsbD_shiftLeft, BitVec.ofNat_eq_ofNat, BitVec.getLsbD_one]
+  congr 1
+  by_cases c : u = t
+  · subst c; simp [hu]
+  · by_cases c2 : u < t
+    · simp [c, c2, hu]
+    · have : u - t ≠ 0 := by omega
+      simp [c, this, hu]
+
+theorem setFold_hbit (off : Nat) (ls : List Nat) (h : Heap) (hin : ∀ l ∈ ls, off + l / 8 < h.size) (k : Nat) :
+    hbit (ls.foldl (fun h l => wr h (off + l / 8) (rdB h (off + l / 8) ||| ((1 : Byte) <<< (l % 8)))) h) k =
+      (hbit h k || ls.any fun l => 8 * off + l == k) ∧
+    (ls.foldl (fun h l => wr h (off + l / 8) (rdB h (off + l / 8) ||| ((1 : Byte) <<< (l % 8)))) h).size = h.size := by
+  induction ls generalizing h with
+  | nil => simp
+  | cons l ls ih =>
+    simp only [List.foldl_cons, List.any_cons]
+    have hl := hin l (by simp)
+    have := ih (wr h (off + l / 8) (rdB h (off + l / 8) ||| ((1 : Byte) <<< (l % 8))))
+      (fun x hx => by rw [wr_size]; exact hin x (by simp [hx]))
+    rw [this.1, this.2, wr_size]
+    refine ⟨?_, rfl⟩
+    rw [hbit_wr, ← Bool.or_assoc]
+    congr 1
+    have ht : k % 8 < 8 := Nat.mod_lt _ (by omega)
+    by_cases c : k / 8 = off + l / 8
+    · rw [if_pos ⟨c, hl⟩, or_bit_getLsbD _ _ _ (Nat.mod_lt _ (by omega)) ht]
+      simp only [hbit, c]
+      congr 1
+      by_cases e : 8 * off + l = k
+      · have : k % 8 = l % 8 := by omega
+        simp [e, this]
+      · have : ¬ k % 8 = l % 8 := by omega
+        simp [e, this]
+    · rw [if_neg (fun hh => c hh.1)]
+      have : (8 * off + l == k) = false := by simp only [beq_eq_false_iff_ne, ne_eq]; omega
+      simp [this]
+
+theorem clearFold_hbit (off : Nat) (ls : List Nat) (h : Heap) (hin : ∀ l ∈ ls, off + l / 8 < h.size) (k : Nat) :
+    hbit (ls.foldl (fun h l => wr h (off + l / 8) (rdB h (off + l / 8) &&& ~~~((1 : Byte) <<< (l % 8)))) h) k =
+      (hbit h k && !(ls.any fun l => 8 * off + l == k)) ∧
+    (ls.foldl (fun h l => wr h (off + l / 8) (rdB h (off + l / 8) &&& ~~~((1 : Byte) <<< (l % 8)))) h).size = h.size := by
+  induction ls generalizing h with
+  | nil => simp
+  | cons l ls ih =>
+    simp only [List.foldl_cons, List.any_cons]
+    have hl := hin l (by simp)
+    have := ih (wr h (off + l / 8) (rdB h (off + l / 8) &&& ~~~((1 : Byte) <<< (l % 8))))
+      (fun x hx => by rw [wr_size]; exact hin x (by simp [hx]))
+    rw [this.1, this.2, wr_size]
+    refine ⟨?_, rfl⟩
+    rw [hbit_wr, Bool.not_or, ← Bool.and_assoc]
+    congr 1
+    have ht : k % 8 < 8 := Nat.mod_lt _ (by omega)
+    by_cases c : k / 8 = off + l / 8
+    · rw [if_pos ⟨c, hl⟩, andnot_bit_getLsbD _ _ _ (Nat.mod_lt _ (by omega)) ht]
+      simp only [hbit, c]
+      congr 2
+      by_cases e : 8 * off + l = k
+      · have : k % 8 = l % 8 := by omega
+        simp [e, this]
+      · have : ¬ k % 8 = l % 8 := by omega
+        simp [e, this]
+    · rw [if_neg (fun hh => c hh.1)]
+      have : (8 * off + l == k) = false := by simp only [beq_eq_false_iff_ne, ne_eq]; omega
+      simp [this]
+
+
+/-- does the index list `locs` (relative to view `p`) hit absolute bit `k` -/
+def hits (p : PBA) (locs : List Int) (k : Nat) : Bool := locs.any fun l => p.A + l.toNat == k
+
+theorem hits_outside (p : PBA) (locs : List Int) (hr : InRange p.n locs) (k : Nat)
+    (hk : ¬ (p.A ≤ k ∧ k < p.A + p.n)) : hits p locs k = false := by
+  simp only [hits, List.any_eq_false, beq_iff_eq]
+  intro l hl
+  have := hr l hl
+  omega
+
+theorem locs_in_heap (h : Heap) (p : PBA) (hwf : WF h p) (locs : List Int) (hr : InRange p.n locs) :
+    ∀ l ∈ (locs.map fun l => (l + (p.start : Int)).toNat), p.off + l / 8 < h.size := by
+  obtain ⟨a1, a2, a3, a4, a5⟩ := hwf
+  intro x hx
+  obtain ⟨l, hl, rfl⟩ := List.mem_map.mp hx
+  have := hr l hl
+  simp only [PBA.n] at this
+  omega
+
+theorem any_map_locs (p : PBA) (locs : List Int) (hr : InRange p.n locs) (k : Nat) :
+    ((locs.map fun l => (l + (p.start : Int)).toNat).any fun l => 8 * p.off + l == k) = hits p locs k := by
+  unfold hits
+  induction locs with
+  | nil => rfl
+  | cons x xs ih =>
+    simp only [List.map_cons, List.any_cons]
+    rw [ih (fun l hl => hr l (by simp [hl]))]
+    congr 1
+    have := hr x (by simp)
+    have e : 8 * p.off + (x + (p.start : Int)).toNat = p.A + x.toNat := by simp only [PBA.A]; omega
+    rw [e]
+
+theorem setBits_spec (h : Heap) (p : PBA) (hwf : WF h p) (locs : List Int) (hr : InRange p.n locs) :
+    ∃ h', setBits h p locs = .ok h' ∧ Rewrites h h' p (fun k x => x || hits p locs k) := by
+  by_cases hne : locs = []
+  · subst hne
+    exact ⟨h, rfl, rfl, fun k => by simp [hits]⟩
+  · have hc := checkLocs_ok h p hwf locs hne hr
+    have hf := setFold_hbit p.off _ h (locs_in_heap h p hwf locs hr)
+    refine ⟨_, by simp only [setBits, List.isEmpty_iff, hne, if_false, hc, bind, Except.bind, pure, Except.pure],
+      (hf 0).2, fun k => ?_⟩
+    rw [(hf k).1, any_map_locs p locs hr]
+    by_cases c : p.A ≤ k ∧ k < p.A + p.n
+    · rw [if_pos c]
+    · rw [if_neg c, hits_outside p locs hr k c, Bool.or_false]
+
+theorem clearBits_spec (h : Heap) (p : PBA) (hwf : WF h p) (locs : List Int) (hr : InRange p.n locs) :
+    ∃ h', clearBits h p locs = .ok h' ∧ Rewrites h h' p (fun k x => x && !hits p locs k) := by
+  by_cases hne : locs = []
+  · subst hne
+    exact ⟨h, rfl, rfl, fun k => by simp [hits]⟩
+  · have hc := checkLocs_ok h p hwf locs hne hr
+    have hf := clearFold_hbit p.off _ h (locs_in_heap h p hwf locs hr)
+    refine ⟨_, by simp only [clearBits, List.isEmpty_iff, hne, if_false, hc, bind, Except.bind, pure, Except.pure],
+      (hf 0).2, fun k => ?_⟩
+    rw [(hf k).1, any_map_locs p locs hr]
+    by_cases c : p.A ≤ k ∧ k < p.A + p.n
+    · rw [if_pos c]
+    · rw [if_neg c, hits_outside p locs hr k c]; simp
+
+theorem test_bit (b : Byte) (t : Nat) (ht : t < 8) : ((b &&& ((1 : Byte) <<< t)) != 0) = b.getLsbD t := by
+  have h1 : (b &&& ((1 : Byte) <<< t)) = if b.getLsbD t then ((1 : Byte) <<< t) else 0 := by
+    apply BitVec.eq_of_getLsbD_eq
+    intro u hu
+    simp only [BitVec.getLsbD_and, BitVec.getLsbD_shiftLeft, BitVec.ofNat_eq_ofNat, BitVec.getLsbD_one]
+    by_cases c : u = t
+    · subst c; cases hb : b.getLsbD u <;> simp [hu]
+    · have : ¬ (u - t = 0 ∧ ¬ u < t) := by omega
+      cases hb : b.getLsbD t <;> by_cases c2 : u < t <;> simp [c2, hu] <;> omega
+  rw [h1]
+  cases hb : b.getLsbD t
+  · simp
+  · simp only [if_true, bne_iff_ne, ne_eq]
+    intro hz
+    have := congrArg (fun x => x.getLsbD t) hz
+    simp [ht] at this
+
+theorem testBits_spec (h : Heap) (p : PBA) (hwf : WF h p) (locs : List Int) (hr : InRange p.n locs) :
+    testBits h p locs = .ok (locs.map fun l => hbit h (p.A + l.toNat)) := by
+  by_cases hne : locs = []
+  · subst hne; rfl
+  · have hc := checkLocs_ok h p hwf locs hne hr
+    simp only [testBits, List.isEmpty_iff, hne, if_false, hc, bind, Except.bind, pure, Except.pure, List.map_map]
+    congr 1
+    apply List.map_congr_left
+    intro l hl
+    have := hr l hl
+    simp only [Function.comp]
+    rw [test_bit _ _ (Nat.mod_lt _ (by omega))]
+    have e : p.A + l.toNat = 8 * (p.off + (l + (p.start : Int)).toNat / 8) + (l + (p.start : Int)).toNat % 8 := by
+      simp only [PBA.A]; omega
+    rw [e, hbit_byte _ _ _ (Nat.mod_lt _ (by omega))]
+
+
+theorem rdB_append (h : Heap) (d : List Byte) (i : Nat) :
+    rdB (h ++ d.toArray) i = if i < h.size then rdB h i else d.getD (i - h.size) 0 := by
+  simp only [rdB, Array.getD_eq_getD_getElem?, Array.getElem?_append, List.getD_eq_getElem?_getD]
+  split <;> simp
+
+theorem hbit_append_old (h : Heap) (d : List Byte) (k : Nat) (hk : k < 8 * h.size) :
+    hbit (h ++ d.toArray) k = hbit h k := by
+  simp only [hbit, rdB_append]; rw [if_pos (by omega)]
+
+theorem hbit_append_new (h : Heap) (d : List Byte) (j t : Nat) (ht : t < 8) :
+    hbit (h ++ d.toArray) (8 * (h.size + j) + t) = (d.getD j 0).getLsbD t := by
+  rw [hbit_byte _ _ _ ht, rdB_append, if_neg (by omega)]
+  congr 2; omega
+
+/-- a view survives an allocation at the end of the heap -/
+theorem WF.append {h : Heap} {p : PBA} (hwf : WF h p) (d : List Byte) : WF (h ++ d.toArray) p := by
+  obtain ⟨a1, a2, a3, a4, a5⟩ := hwf
+  exact ⟨a1, a2, a3, a4, by simp; omega⟩
+
+theorem toBools_append {h : Heap} {p : PBA} (hwf : WF h p) (d : List Byte) :
+    toBools (h ++ d.toArray) p = toBools h p := by
+  rw [toBools_eq _ _ (hwf.append d), toBools_eq _ _ hwf]
+  apply List.map_congr_left
+  intro i hi
+  have := List.mem_range.mp hi
+  obtain ⟨a1, a2, a3, a4, a5⟩ := hwf
+  apply hbit_append_old
+  simp only [PBA.A, PBA.n] at *
+  omega
+
+theorem init_sized_spec (h : Heap) (n s : Nat) (hs : s < 8) :
+    ∃ p, init h (some (n : Int)) none (some (s : Int)) none =
+        .ok (h ++ (List.replicate ((n + s + 7) / 8) (0 : Byte)).toArray, p) ∧
+      WF (h ++ (List.replicate ((n + s + 7) / 8) (0 : Byte)).toArray) p ∧ p.own = true ∧ p.start = s ∧ p.n = n ∧
+      p.off = h.size ∧
+      toBools (h ++ (List.replicate ((n + s + 7) / 8) (0 : Byte)).toArray) p = List.replicate n false := by
+  have hlen : (((n : Int) + s) / 8 + if ((n : Int) + s) % 8 = 0 then 0 else 1).toNat = (n + s + 7) / 8 := by
+    split <;> omega
+  have hpos : ¬ (((n : Int) + s) / 8 + if ((n : Int) + s) % 8 = 0 then 0 else 1) < 0 := by
+    split <;> omega
+  refine ⟨⟨h.size, (n + s + 7) / 8, s, (n : Int) + s, true⟩, ?_, ?_, rfl, rfl, ?_, rfl, ?_⟩
+  · simp only [init, checkStart, bind, Except.bind, pure, Except.pure, Option.isSome_some, Option.isSome_none,
+      Bool.and_false, Bool.false_eq_true, if_false, Option.getD_some, beq_iff_eq, Int.toNat_natCast]
+    rw [if_neg (by simp; omega)]
+    simp only [hpos, if_false, hlen, Array.replicate_eq_toArray_replicate]
+  · refine ⟨hs, ?_, ?_, ?_, ?_⟩ <;> simp <;> omega
+  · simp [PBA.n]
+  · rw [toBools_eq _ _ (by refine ⟨hs, ?_, ?_, ?_, ?_⟩ <;> simp <;> omega)]
+    have hn : (⟨h.size, (n + s + 7) / 8, s, (n : Int) + s, true⟩ : PBA).n = n := by simp [PBA.n]
+    rw [hn]
+    apply List.ext_getElem?
+    intro i
+    by_cases hi : i < n
+    · simp only [List.getElem?_map, List.getElem?_range hi, Option.map_some, List.getElem?_replicate, hi, if_true, PBA.A]
+      have e : 8 * h.size + s + i = 8 * (h.size + (s + i) / 8) + (s + i) % 8 := by omega
+      rw [e, hbit_append_new _ _ _ _ (Nat.mod_lt _ (by omega))]
+      simp [List.getD_eq_getElem?_getD, List.getElem?_replicate]
+      split <;> simp
+    · simp [hi]
+
+theorem fromBool_spec (h : Heap) (arr : List Bool) (s : Nat) (hs : s < 8) (start : Option Int)
+    (hst : start = some (s : Int) ∨ (start = none ∧ s = 0)) :
+    ∃ p, fromBool h arr start = .ok (h ++ (fromBoolData s arr).toArray, p) ∧
+      WF (h ++ (fromBoolData s arr).toArray) p ∧ p.own = true ∧ p.start = s ∧ p.n = arr.length ∧
+      p.off = h.size ∧ toBools (h ++ (fromBoolData s arr).toArray) p = arr := by
+  have hl : (fromBoolData s arr).length = (s + arr.length + 7) / 8 := by
+    simp [fromBoolData, packBits_length]
+  have hwf : WF (h ++ (fromBoolData s arr).toArray) ⟨h.size, (fromBoolData s arr).length, s, (s : Int) + arr.length, true⟩ := by
+    refine ⟨hs, ?_, ?_, ?_, ?_⟩ <;> simp [hl] <;> omega
+  refine ⟨⟨h.size, (fromBoolData s arr).length, s, (s : Int) + arr.length, true⟩, ?_, hwf, rfl, rfl, ?_, rfl, ?_⟩
+  · rcases hst with rfl | ⟨rfl, rfl⟩
+    · simp only [fromBool, init, initData, checkStart, bind, Except.bind, pure, Except.pure, Option.isSome_some,
+        Option.isSome_none, Bool.false_and, Bool.false_eq_true, if_false, Int.toNat_natCast]
+      rw [if_neg (by omega), if_neg (by simp; omega)]
+      dsimp only
+      rw [if_neg (by simp [hl]; omega)]
+    · simp only [fromBool, init, initData, checkStart, bind, Except.bind, pure, Except.pure, Option.isSome_some,
+        Option.isSome_none, Bool.false_and, Bool.false_eq_true, if_false]
+      rw [if_neg (by simp)]
+      have : packBits arr = fromBoolData 0 arr := by simp [fromBoolData]
+      simp only [this]
+      rw [if_neg (by simp [hl]; omega)]
+      simp
+  · simp only [PBA.n]; omega
+  · rw [toBools_eq _ _ hwf]
+    have hn : (⟨h.size, (fromBoolData s arr).length, s, (s : Int) + arr.length, true⟩ : PBA).n = arr.length := by
+      simp only [PBA.n]; omega
+    rw [hn]
+    apply List.ext_getElem?
+    intro i
+    by_cases hi : i < arr.length
+    · simp only [List.getElem?_map, List.getElem?_range hi, Option.map_some, PBA.A]
+      have e : 8 * h.size + s + i = 8 * (h.size + (s + i) / 8) + (s + i) % 8 := by omega
+      rw [e, hbit_append_new _ _ _ _ (Nat.mod_lt _ (by omega)), fromBoolData_getLsbD _ _ _ _ (Nat.mod_lt _ (by omega))]
+      have e2 : 8 * ((s + i) / 8) + (s + i) % 8 = s + i := by omega
+      rw [e2, List.getD_eq_getElem?_getD, List.getElem?_append_right (by simp)]
+      simp [hi]
+    · simp [hi]
+
+
+theorem getD_set (l : List Byte) (i j : Nat) (b : Byte) :
+    (l.set i b).getD j 0 = if i = j ∧ i < l.length then b else l.getD j 0 := by
+  simp only [List.getD_eq_getElem?_getD, List.getElem?_set]
+  by_cases c : i = j
+  · subst c
+    by_cases c2 : i < l.length <;> simp [c2]
+  · simp [c]
+
+theorem maskFrom_pack_getLsbD (b : Byte) (lo hi t : Nat) (ht : t < 8) :
+    (pack (maskFrom (unpack b) lo hi)).getLsbD t = (!decide (lo ≤ t ∧ t < hi) && b.getLsbD t) := by
+  unfold maskFrom
+  rw [byteMod_getLsbD _ _ _ _ _ ht]
+  by_cases c : lo ≤ t ∧ t < hi <;> simp [c]
+
+theorem maskFrom2_pack_getLsbD (b : Byte) (lo hi lo2 hi2 t : Nat) (ht : t < 8) :
+    (pack (maskFrom (maskFrom (unpack b) lo hi) lo2 hi2)).getLsbD t =
+      (!decide (lo2 ≤ t ∧ t < hi2) && (!decide (lo ≤ t ∧ t < hi) && b.getLsbD t)) := by
+  unfold maskFrom
+  rw [pack_getLsbD, setRange_getD _ _ _ _ _ (by simp [setRange_length, unpack_length, ht]),
+    setRange_getD _ _ _ _ _ (by simp [unpack_length, ht]), unpack_getD]
+  by_cases c : lo ≤ t ∧ t < hi <;> by_cases c2 : lo2 ≤ t ∧ t < hi2 <;> simp [c, c2, ht]
+
+theorem copy_bytes_raw (h : Heap) (off len start e : Nat)
+    (h1 : start < 8) (h2 : start ≤ e) (h3 : 8 * len ≤ e + 7) (h4 : e ≤ 8 * len)
+    (f : FML) (hf : fml (fun i => rdB h (off + i)) len start (e : Int) true = .ok f)
+    (dl : List Byte) (hdl : dl.length = len) (hd : ∀ j, j < len → dl.getD j 0 = rdB h (off + j)) :
+    ∀ j t, j < len → t < 8 →
+      ((maskedBuffer f dl).getD j 0).getLsbD t =
+      (decide (start ≤ 8 * j + t ∧ 8 * j + t < e) && (rdB h (off + j)).getLsbD t) := by
+  intro j t hj ht
+  have hsm : ((e : Int) % 8).toNat = e % 8 := by omega
+  unfold fml at hf
+  simp only [Bool.and_eq_true, beq_iff_eq, if_true] at hf
+  repeat' split at hf
+  all_goals (cases hf)
+  all_goals simp only [maskedBuffer, Part.absent, setLast, getD_set, List.length_set, hdl, hsm, Int.toNat_natCast]
+  all_goals (repeat' split)
+  all_goals (try (rename_i hc; obtain ⟨hc1, hc2⟩ := hc; subst hc1))
+  all_goals (try rw [maskFrom2_pack_getLsbD _ _ _ _ _ _ ht])
+  all_goals (try rw [maskFrom_pack_getLsbD _ _ _ _ ht])
+  all_goals (try rw [hd _ hj])
+  all_goals (generalize BitVec.getLsbD (rdB h _) t = x; cases x <;> simp <;> (try omega))
+  all_goals (apply Bool.eq_iff_iff.mpr; simp only [Bool.or_eq_true, Bool.and_eq_true, Bool.not_eq_eq_eq_not,
+    Bool.not_true, decide_eq_true_eq, decide_eq_false_iff_not]; omega)
+
+theorem copy_len_raw (f : FML) (dl : List Byte) :
+    (maskedBuffer f dl).length = dl.length := by
+  unfold maskedBuffer
+  cases f.first.arr <;> cases f.last.arr <;> simp [setLast]
+
+theorem copy_spec (h : Heap) (p : PBA) (hwf : WF h p) :
+    ∃ d : List Byte, copy h p = .ok (h ++ d.toArray, ⟨h.size, p.len, p.start, p.stop, true⟩) ∧ d.length = p.len ∧
+      ∀ j t, j < p.len → t < 8 → (d.getD j 0).getLsbD t =
+        (decide (p.start ≤ 8 * j + t ∧ 8 * j + t < p.start + p.n) && hbit h (8 * (p.off + j) + t)) := by
+  obtain ⟨f, hf⟩ := PBA.fml_ok hwf true
+  have hs := hwf.stop_eq
+  have hwf' := hwf
+  obtain ⟨a1, a2, a3, a4, a5⟩ := hwf
+  have hdl := data_length h p a5
+  have hd : ∀ j, j < p.len → (p.data h).getD j 0 = rdB h (p.off + j) := by
+    intro j hj
+    rw [List.getD_eq_getElem?_getD, data_getElem? h p a5, if_pos hj]; rfl
+  have hlen := copy_len_raw f (p.data h)
+  have hfr := hf
+  unfold PBA.fml at hfr
+  rw [hs] at hfr
+  have hb := copy_bytes_raw h p.off p.len p.start (p.start + p.n) a1 (by omega) (by omega) (by omega) f hfr
+    (p.data h) hdl hd
+  refine ⟨_, ?_, hlen.trans hdl, ?_⟩
+  · simp only [copy, hf, bind, Except.bind, pure, Except.pure, initData, checkStart]
+    rw [if_neg (by simp; omega)]
+    dsimp only
+    rw [hlen, hdl, if_neg (by simp; omega)]
+    simp
+  · intro j t hj ht
+    rw [hb j t hj ht, hbit_byte _ _ _ ht]
+
+
+theorem bitCount_table :
+    (List.range 256).all (fun n => (bitCount (BitVec.ofNat 8 n)).toNat == (unpack (BitVec.ofNat 8 n)).count true) = true := by
+  decide +kernel
+
+/-- The lookup-table formula of `_bit_count` gives the number of set bits, for all 256 bytes. -/
+theorem bitCount_popcount (b : Byte) : (bitCount b).toNat = (unpack b).count true := by
+  have h := List.all_eq_true.mp bitCount_table b.toNat (List.mem_range.mpr b.isLt)
+  simp only [BitVec.ofNat_toNat, BitVec.setWidth_eq, beq_iff_eq] at h
+  exact h
+
+/-- number of set bits of the heap in the absolute bit range `[a, b)` -/
+def cnt (h : Heap) (a b : Nat) : Nat := ((List.range (b - a)).map fun i => hbit h (a + i)).count true
+
+theorem cnt_empty (h : Heap) (a b : Nat) (hab : b ≤ a) : cnt h a b = 0 := by
+  have : b - a = 0 := by omega
+  simp [cnt, this]
+
+theorem cnt_split (h : Heap) (a m b : Nat) (h1 : a ≤ m) (h2 : m ≤ b) : cnt h a b = cnt h a m + cnt h m b := by
+  have : b - a = (m - a) + (b - m) := by omega
+  simp only [cnt, this, List.range_add, List.map_append, List.count_append, List.map_map]
+  congr 2
+  apply List.map_congr_left
+  intro i _
+  simp only [Function.comp]
+  congr 1; omega
+
+theorem cnt_byte (h : Heap) (j : Nat) : cnt h (8 * j) (8 * j + 8) = (bitCount (rdB h j)).toNat := by
+  rw [bitCount_popcount]
+  have : 8 * j + 8 - 8 * j = 8 := by omega
+  simp only [cnt, this, unpack]
+  congr 1
+  apply List.map_congr_left
+  intro i hi
+  exact hbit_byte h j i (List.mem_range.mp hi)
+
+theorem cnt_bytes (h : Heap) (j0 m : Nat) :
+    ((List.range m).map fun i => (bitCount (rdB h (j0 + i))).toNat).sum = cnt h (8 * j0) (8 * (j0 + m)) := by
+  induction m with
+  | zero => simp [cnt]
+  | succ m ih =>
+    rw [List.range_succ, List.map_append, List.sum_append, ih]
+    rw [cnt_split h (8 * j0) (8 * (j0 + m)) (8 * (j0 + (m + 1))) (by omega) (by omega)]
+    congr 1
+    simp only [List.map_cons, List.map_nil, List.sum_cons, List.sum_nil, Nat.add_zero]
+    have : 8 * (j0 + (m + 1)) = 8 * (j0 + m) + 8 := by omega
+    rw [this, cnt_byte]
+
+/-- an unpacked byte of which only the bits `[lo, hi)` were kept -/
+theorem cnt_part (h : Heap) (j lo hi : Nat) (arr : List Bool) (hlen : arr.length = 8) (hlh : lo ≤ hi) (hh : hi ≤ 8)
+    (harr : ∀ t, t < 8 → arr.getD t false = (decide (lo ≤ t ∧ t < hi) && (rdB h j).getLsbD t)) :
+    countTrue arr = cnt h (8 * j + lo) (8 * j + hi) := by
+  have e : arr = (List.range 8).map fun t => arr.getD t false := by
+    apply List.ext_getElem?
+    intro i
+    by_cases hi8 : i < 8
+    · simp [hi8, hlen, List.getD_eq_getElem?_getD]
+    · simp [hi8, hlen]
+  have h8 : 8 = lo + ((hi - lo) + (8 - hi)) := by omega
+  rw [countTrue, e]
+  conv => lhs; rw [h8]
+  simp only [List.range_add, List.map_append, List.count_append, List.map_map]
+  have z1 : ((List.range lo).map fun t => arr.getD t false).count true = 0 := by
+    rw [List.count_eq_zero]
+    simp only [List.mem_map, List.mem_range, not_exists, not_and]
+    intro t ht
+    rw [harr t (by omega)]; simp; omega
+  have z3 : (List.map ((fun t => arr.getD t false) ∘ (fun x => lo + x) ∘ fun x => hi - lo + x) (List.range (8 - hi))).count true = 0 := by
+    rw [List.count_eq_zero]
+    simp only [List.mem_map, List.mem_range, not_exists, not_and, Function.comp]
+    intro t ht
+    rw [harr _ (by omega)]; simp; omega
+  rw [z1, z3, Nat.zero_add, Nat.add_zero]
+  have : 8 * j + hi - (8 * j + lo) = hi - lo := by omega
+  simp only [cnt, this]
+  congr 1
+  apply List.map_congr_left
+  intro i hi'
+  have := List.mem_range.mp hi'
+  simp only [Function.comp]
+  rw [harr _ (by omega)]
+  have e2 : 8 * j + lo + i = 8 * j + (lo + i) := by omega
+  rw [e2, hbit_byte _ _ _ (by omega)]
+  simp; omega
+
+theorem maskFrom_length (l : List Bool) (lo hi : Nat) : (maskFrom l lo hi).length = l.length := by
+  simp [maskFrom, setRange_length]
+
+theorem maskFrom_getD (l : List Bool) (lo hi t : Nat) (ht : t < l.length) :
+    (maskFrom l lo hi).getD t false = (!decide (lo ≤ t ∧ t < hi) && l.getD t false) := by
+  unfold maskFrom
+  rw [setRange_getD _ _ _ _ _ ht]
+  by_cases c : lo ≤ t ∧ t < hi <;> simp [c]
+
+theorem cnt_last (h : Heap) (j sm : Nat) (hsm : sm ≤ 8) :
+    countTrue (maskFrom (unpack (rdB h j)) sm 8) = cnt h (8 * j) (8 * j + sm) := by
+  have := cnt_part h j 0 sm (maskFrom (unpack (rdB h j)) sm 8) (by simp [maskFrom_length, unpack_length])
+    (by omega) hsm (by
+      intro t ht
+      rw [maskFrom_getD _ _ _ _ (by simp [unpack_length, ht]), unpack_getD]
+      congr 1
+      apply Bool.eq_iff_iff.mpr; simp; omega)
+  simpa using this
+
+theorem cnt_first (h : Heap) (j start : Nat) (hs : start ≤ 8) :
+    countTrue (maskFrom (unpack (rdB h j)) 0 start) = cnt h (8 * j + start) (8 * j + 8) := by
+  exact cnt_part h j start 8 (maskFrom (unpack (rdB h j)) 0 start) (by simp [maskFrom_length, unpack_length])
+    hs (by omega) (by
+      intro t ht
+      rw [maskFrom_getD _ _ _ _ (by simp [unpack_length, ht]), unpack_getD]
+      congr 1
+      apply Bool.eq_iff_iff.mpr; simp; omega)
+
+theorem cnt_first2 (h : Heap) (j start e : Nat) (hs : start ≤ e) (he : e ≤ 8) :
+    countTrue (maskFrom (maskFrom (unpack (rdB h j)) 0 start) e 8) = cnt h (8 * j + start) (8 * j + e) := by
+  exact cnt_part h j start e _ (by simp [maskFrom_length, unpack_length])
+    hs he (by
+      intro t ht
+      rw [maskFrom_getD _ _ _ _ (by simp [maskFrom_length, unpack_length, ht]),
+        maskFrom_getD _ _ _ _ (by simp [unpack_length, ht]), unpack_getD, ← Bool.and_assoc]
+      congr 1
+      apply Bool.eq_iff_iff.mpr; simp; omega)
+
+theorem sum_raw (h : Heap) (off len start e : Nat)
+    (h1 : start < 8) (h2 : start ≤ e) (h3 : 8 * len ≤ e + 7) (h4 : e ≤ 8 * len)
+    (f : FML) (hf : fml (fun i => rdB h (off + i)) len start (e : Int) true = .ok f) :
+    sumParts h off f = cnt h (8 * off + start) (8 * off + e) := by
+  have hsm : ((e : Int) % 8).toNat = e % 8 := by omega
+  unfold fml at hf
+  simp only [Bool.and_eq_true, beq_iff_eq, if_true] at hf
+  repeat' split at hf
+  all_goals (cases hf)
+  all_goals simp only [sumParts, Part.absent, hsm, Int.toNat_natCast, Nat.zero_add, Nat.add_zero]
+  · -- fully aligned
+    rw [cnt_bytes]; congr 1 <;> omega
+  · -- aligned at 0, short
+    rw [cnt_last _ _ _ (by omega)]; congr 1 <;> omega
+  · -- aligned at 0, longer
+    rw [cnt_last _ _ _ (by omega), cnt_bytes, Nat.add_comm,
+      cnt_split h (8 * off + start) (8 * (off + (len - 1))) (8 * off + e) (by omega) (by omega)]
+    congr 1 <;> congr 1 <;> omega
+  · -- unaligned start, aligned end, one byte
+    rw [cnt_first _ _ _ (by omega)]; congr 1; omega
+  · -- unaligned start, aligned end, longer
+    rw [cnt_first _ _ _ (by omega), cnt_bytes,
+      cnt_split h (8 * off + start) (8 * off + 8) (8 * off + e) (by omega) (by omega)]
+    congr 1; congr 1 <;> omega
+  · -- one byte, unaligned at both ends
+    rw [cnt_first2 _ _ _ _ (by omega) (by omega)]
+  · -- two bytes, unaligned at both ends
+    rw [cnt_first _ _ _ (by omega), cnt_last _ _ _ (by omega),
+      cnt_split h (8 * off + start) (8 * off + 8) (8 * off + e) (by omega) (by omega)]
+    congr 1; congr 1 <;> omega
+  · -- long, unaligned at both ends
+    rw [cnt_first _ _ _ (by omega), cnt_last _ _ _ (by omega), cnt_bytes, Nat.add_right_comm,
+      cnt_split h (8 * off + start) (8 * (off + (len - 1))) (8 * off + e) (by omega) (by omega),
+      cnt_split h (8 * off + start) (8 * off + 8) (8 * (off + (len - 1))) (by omega) (by omega)]
+    congr 1
+    · congr 1; congr 1 <;> omega
+    · congr 1 <;> omega
+
+theorem toBools_count (h : Heap) (p : PBA) (hwf : WF h p) :
+    (toBools h p).count true = cnt h p.A (p.A + p.n) := by
+  rw [toBools_eq h p hwf, cnt]
+  have : p.A + p.n - p.A = p.n := by omega
+  rw [this]
+
+theorem sum_spec (h : Heap) (p : PBA) (hwf : WF h p) : sum h p = .ok ((toBools h p).count true) := by
+  obtain ⟨f, hf⟩ := PBA.fml_ok hwf true
+  have hs := hwf.stop_eq
+  have hwf' := hwf
+  obtain ⟨a1, a2, a3, a4, a5⟩ := hwf
+  have hfr := hf
+  unfold PBA.fml at hfr
+  rw [hs] at hfr
+  have := sum_raw h p.off p.len p.start (p.start + p.n) a1 (by omega) (by omega) (by omega) f hfr
+  simp only [sum, hf, bind, Except.bind, pure, Except.pure, this, toBools_count h p hwf', PBA.A, Nat.add_assoc]
+
+
 end Packed
 end HS
